@@ -1106,6 +1106,15 @@ func accessibleFrom(info *types.Info, node ast.Node, wantPkg string) error {
 		if pos := obj.Pos(); start <= pos && pos < end {
 			// Declared by the expression itself (a parameter of a function
 			// type, a field of a struct type, ...): it moves with it.
+			// An unexported field or method name of a type literal, however,
+			// belongs to the package it is written in: the same literal
+			// elsewhere is a different type.
+			_, isFunc := obj.(*types.Func)
+			v, isVar := obj.(*types.Var)
+			if (isFunc || isVar && v.IsField()) && !obj.Exported() && obj.Pkg() != nil && obj.Pkg().Path() != wantPkg {
+				unexportError = fmt.Errorf("declares unexported %s in a type literal", obj.Name())
+				return false
+			}
 			return true
 		}
 		if pkg := obj.Pkg(); pkg != nil {
